@@ -251,7 +251,9 @@ theorem keypair_gen_even_only (table : List (Nat × List Nat)) (n : Nat)
 
 /-- a product of two numbers of `k` bits has `2k - 1` or `2k` bits: never `2k + 1`, which is why
 `generate_key(2k + 1)` (primes of `(2k + 1) / 2 = k` bits, loop until the product has `2k + 1`
-bits) cannot return. -/
+bits) cannot return.  Pure arithmetic: that `generate_prime(k)` returns `p < 2^k` is proved for the
+construction (for `k % 8 ≥ 2`, modulo an explicit prime-gap hypothesis; FALSE for some byte streams when
+`k % 8 ∈ {0, 1}`) in Props/C06Gen.lean (`generate_prime_lt_two_pow`, `generate_key_never_returns_odd`). -/
 theorem product_size_never_odd (k p q : Nat) (hp : p < 2 ^ k) (hq : q < 2 ^ k) :
     p * q < 2 ^ (2 * k) := by
   calc p * q < 2 ^ k * 2 ^ k := Nat.mul_lt_mul'' hp hq
@@ -261,7 +263,10 @@ theorem product_size_never_odd (k p q : Nat) (hp : p < 2 ^ k) (hq : q < 2 ^ k) :
 `generate_prime(8m+r)` draws only `8m` random bits and sets bit `8m+r-1`, so (with generous slack
 `3·2^(8m-1)` for the "+31 - p%30" alignment and the prime search) both primes are below
 `2^(8m+r-1) + 3·2^(8m-1)`, and then the product has at most `bits - 1` bits.
-(Companion of C06.product_size_never_odd, which covers odd `bits` only.) -/
+(Companion of C06.product_size_never_odd, which covers odd `bits` only.)
+Pure arithmetic: the hypotheses `hp`, `hq` are proved for the construction in the code — modulo an
+explicit prime-gap hypothesis — in Props/C06Gen.lean (`generate_prime_bound`,
+`generate_key_never_returns_size`). -/
 theorem product_size_never_reached (m r p q : ℕ) (hm : 1 ≤ m) (hr : 3 ≤ r)
     (hp : p < 2 ^ (8 * m + r - 1) + 3 * 2 ^ (8 * m - 1))
     (hq : q < 2 ^ (8 * m + r - 1) + 3 * 2 ^ (8 * m - 1)) :
